@@ -2,7 +2,7 @@
 From Coq Require Import List NArith ZArith Bool Arith.
 From Baize Require Import Lib.Wire Lib.Order Lib.Path C02.Model C02.Proofs Resp.Model C04.Model C04.Proofs C04.Apps
                           C04.StaticProofs C04.AppsProofs.
-From Baize Require C07.Model C07.Proofs C09.Model C09.Proofs C14.Model C18.Model.
+From Baize Require C07.Model C07.Proofs C09.Model C09.Proofs C14.Model C18.Model C18.Proofs.
 Import ListNotations.
 
 (* Request view, headers: the mapping the WSGI request builds from the CGI rendering
@@ -140,6 +140,30 @@ Theorem static_serves_file : forall (i : C14.Model.iface) (k : C07.Model.kind) (
   end.
 Proof. exact static_serves_file_proof. Qed.
 
+(* The Location of Pages' redirect, in the vocabulary of C18 (url_components): for a request whose
+   authority comes from a well-formed Host header or, without one, from the server address and
+   port ([src], [request_of]), a root path ++ path and a query of C18's grammar: when the redirect is
+   answered at all it is 307 with
+     Location: iri_to_uri("//" + authority + root path + path + "/" + ["?" + query])
+   — the Host header verbatim, otherwise the server address with the default port elided and an
+   IPv6 literal bracketed; the scheme is dropped, the query kept; percent-coding by iri_to_uri —
+   and never HTTPException(400): urlsplit accepts the scheme-less text urlunsplit made.
+   The WSGI answer is the same one by static_equiv. *)
+Theorem static_redirect_location : forall (c : scfg) (e : senv) (rq : areq) (s : state) (p q : bytes)
+    (sch : bytes) (d : N) (src : C18.Proofs.source),
+  let root := C09.Model.get (C09.Model.root (s_req s)) in
+  C09.Model.lifespan (s_req s) = false -> C09.Model.path (s_req s) = Some p ->
+  (exists loc, fst (C07.Model.pages_call (se_fs e) (se_cwd e) (sc_dir c) p) = C07.Model.Redirect loc) ->
+  utf8_decode (rq_query (aq_request rq)) = Some q ->
+  url_request rq (hget (lit "host") (scope_headers (aq_request rq))) root p q = C18.Proofs.request_of sch src root p q ->
+  C18.Model.default_port sch = Some d -> C18.Proofs.source_ok src = true ->
+  C18.Proofs.path_ok (root ++ p) = true -> C18.Proofs.query_ok q = true ->
+  let location := iri_to_uri (lit "//" ++ C18.Proofs.host_text (C18.Proofs.source_host src)
+                                ++ C18.Proofs.port_text (C18.Proofs.source_port d src)
+                                ++ (root ++ p ++ [47%N]) ++ C18.Proofs.qpart q) in
+  static_asgi C07.Model.KPages c e rq s = OResp 307 [(lit "location", location); (lit "content-length", lit "0")] [].
+Proof. exact static_redirect_location_proof. Qed.
+
 (* Bundled applications.  An application is a tree of any depth and width (C04/Apps.v):
      Leaf view          a view: what it sees of the request (method, root path, path, path
                         parameters, header mapping) -> the response recipe it answers with
@@ -276,6 +300,22 @@ Proof.
   - vm_compute. repeat constructor.
 Qed.
 
+(* static_redirect_location on the same world: Host "h:8080", root path "/r", path "/sub", query "a=1" *)
+Example static_redirect_example :
+  let rq := ex_request (lit "GET") (lit "/sub") [(lit "Host", lit "h:8080")] in
+  let s := init rq in
+  let src := C18.Proofs.FromHost (C18.Proofs.Name (lit "h")) (Some 8080%N) (Some (lit "testserver", Some 80%N)) in
+  fst (C07.Model.pages_call (se_fs ex_env) (se_cwd ex_env) (sc_dir ex_cfg) (lit "/sub")) = C07.Model.Redirect (lit "/sub/") /\
+  utf8_decode (rq_query (aq_request rq)) = Some (lit "a=1") /\
+  url_request rq (hget (lit "host") (scope_headers (aq_request rq))) (lit "/r") (lit "/sub") (lit "a=1") =
+    C18.Proofs.request_of (lit "http") src (lit "/r") (lit "/sub") (lit "a=1") /\
+  C18.Model.default_port (lit "http") = Some 80%N /\ C18.Proofs.source_ok src = true /\
+  C18.Proofs.path_ok (lit "/r" ++ lit "/sub") = true /\ C18.Proofs.query_ok (lit "a=1") = true /\
+  static_asgi C07.Model.KPages ex_cfg ex_env rq s =
+    OResp 307 [(lit "location", lit "//h:8080/r/sub/?a=1"); (lit "content-length", lit "0")] [] /\
+  static_wsgi C07.Model.KPages ex_cfg ex_env rq s = static_asgi C07.Model.KPages ex_cfg ex_env rq s.
+Proof. cbv zeta. repeat split; vm_compute; reflexivity. Qed.
+
 Print Assumptions headers_view_equiv.
 Print Assumptions client_view_equiv.
 Print Assumptions body_view_equiv.
@@ -283,5 +323,6 @@ Print Assumptions response_equiv.
 Print Assumptions host_view_equiv.
 Print Assumptions static_equiv.
 Print Assumptions static_serves_file.
+Print Assumptions static_redirect_location.
 Print Assumptions app_equiv.
 Print Assumptions app_equiv_below.
